@@ -19,9 +19,9 @@ func init() {
 			"(R5) removal events and batch callbacks run under the internal lock (C07/R2). Not decided: the values read inside callbacks.",
 		TrustedBase: []string{"go/types, go/cfg", "anchor table (row-state fields)", "fire-function role = indirect call through observerData.callback; event kind from the EventType constant"},
 		Rules: []Rule{
-			{ID: "C09/R1+R2", Run: c09r1r2, Min: 10},
-			{ID: "C09/R3", Run: c09r3, Min: 2},
-			{ID: "C09/R4", Run: c09r4, Min: 40},
+			{ID: "C09/R1+R2", Run: c09r1r2, Min: 1},
+			{ID: "C09/R3", Run: c09r3, Min: 1},
+			{ID: "C09/R4", Run: c09r4, Min: 1},
 		},
 	})
 }
